@@ -895,3 +895,149 @@ class GetWrappedConfig:
         # hyphenated section name first, then the underscored one, else None
         return context.metadata["file-placement"] if "file-placement" in context.metadata else (
             context.metadata["file_placement"] if "file_placement" in context.metadata else None)
+
+
+# =================================================================== bounded differential at the linter's entry point
+# A net under the contracts (not a replacement): generated rule sets over a small alphabet of directory prefixes and regex
+# patterns (nested / empty / root rules in any order, string and dict deny items, global_deny, global_patterns, an invalid
+# pattern planted anywhere) x all paths of a small tree, each spelled relative and absolute. Oracle = the property text
+# (most specific CONTAINING directory rule, deny before allow, else the global lists), with the listed known finding
+# C18-global-on-covered folded in (a covered file is additionally judged by the global lists). ONE linter object serves all
+# paths of a configuration (its compiled-pattern cache is reused), every path is linted twice.
+from pyvc.api import custom as _custom  # noqa: E402
+
+_DIRS = ["src", "src/app", "src/app/gen", "docs", "/", ".github", "tests", "src/app/gen/deep"]
+_PATS = [r".*\.py$", r"^src/", r"test", r"\.md$", r"^\.", r"secret", r"^$", r".*", r"\.ya?ml$", r"^[a-z]+\.[a-z]+$"]
+_BAD = [r"(", r"[a-", r"*x", r"(?P<n"]
+_PATHS = ["README.md", ".bashrc", "setup.py", "src/a.py", "src/secret.py", "src2/a.py", "srcx.py", "src/app/b.ts",
+          "src/app/gen/c.py", "src/app/gen/deep/d.md", "docs/x.md", "docs/sub/y.rst", ".github/w.yml", ".github/notes.txt",
+          "tests/test_a.py", "tests/data/secret.txt", "SRC/A.PY"]
+
+
+def _gen_rule(rng):
+    rule = {}
+    if rng.random() < 0.6:
+        rule["allow"] = [rng.choice(_PATS) for _ in range(rng.choice([0, 1, 1, 2]))]
+    if rng.random() < 0.5:
+        rule["deny"] = [(rng.choice(_PATS) if rng.random() < 0.5 else
+                         {"pattern": rng.choice(_PATS), **({"reason": "r"} if rng.random() < 0.5 else {})})
+                        for _ in range(rng.choice([1, 1, 2]))]
+    return rule
+
+
+def _gen_config(rng):
+    cfg = {}
+    if rng.random() < 0.8:
+        ds = rng.sample(_DIRS, rng.choice([1, 2, 3, 4]))
+        cfg["directories"] = {d: ({} if rng.random() < 0.2 else _gen_rule(rng)) for d in ds}
+    if rng.random() < 0.4:
+        cfg["global_deny"] = [(rng.choice(_PATS) if rng.random() < 0.5 else {"pattern": rng.choice(_PATS), "reason": "g"})
+                              for _ in range(rng.choice([1, 2]))]
+    if rng.random() < 0.4:
+        cfg["global_patterns"] = _gen_rule(rng)
+    return cfg
+
+
+def _plant_invalid(rng, cfg):
+    """Put one syntactically invalid pattern somewhere; False if the configuration has no pattern slot."""
+    slots = []
+    for rule in list(cfg.get("directories", {}).values()) + ([cfg["global_patterns"]] if "global_patterns" in cfg else []):
+        slots += [(rule["allow"], i) for i in range(len(rule.get("allow", [])))]
+        slots += [(rule["deny"], i) for i in range(len(rule.get("deny", [])))]
+    slots += [(cfg["global_deny"], i) for i in range(len(cfg.get("global_deny", [])))]
+    if not slots:
+        return False
+    lst, i = rng.choice(slots)
+    lst[i] = {"pattern": rng.choice(_BAD)} if isinstance(lst[i], dict) else rng.choice(_BAD)
+    return True
+
+
+def _m(p, path):
+    import re as _re_
+    return _re_.search(p, path, _re_.IGNORECASE) is not None
+
+
+def _rule_reports(rule, path):
+    denied = any(_m(d if isinstance(d, str) else d["pattern"], path) for d in rule.get("deny", []))
+    return denied or ("allow" in rule and not any(_m(a, path) for a in rule["allow"]))
+
+
+def _contains(d, path):
+    return ("/" not in path) if d == "/" else (path == d or path.startswith(d.rstrip("/") + "/"))
+
+
+def _oracle(cfg, path):
+    covering = [d for d in cfg.get("directories", {}) if _contains(d, path)]
+    reported = False
+    if covering:
+        best = max(covering, key=lambda d: 0 if d == "/" else len(d.split("/")))
+        reported = _rule_reports(cfg["directories"][best], path)
+    # known finding C18-global-on-covered: the global lists are applied to covered files as well
+    glob = any(_m(d if isinstance(d, str) else d["pattern"], path) for d in cfg.get("global_deny", [])) \
+        or ("global_patterns" in cfg and _rule_reports(cfg["global_patterns"], path))
+    return reported or glob
+
+
+@_custom("c18-placement-differential-bounded", props=["C18"])
+def c18_placement_differential(ctx):
+    import copy
+    import random
+    import time
+    from pathlib import Path
+    from pyvc.native import _ensure_repo_on_path
+    name = "c18-placement-differential-bounded"
+    t0 = time.time()
+    try:
+        _ensure_repo_on_path()
+        from src.linters.file_placement.linter import FilePlacementLinter
+    except Exception as e:  # noqa
+        return [{"name": name, "kind": "bounded", "verdict": "unknown", "note": f"cannot import: {e!r}"[:300],
+                 "tool": "cpython", "budget": "-", "cases": 0}]
+    rng = random.Random(1800 + int(ctx.get("seed", 0)))
+    n_cfg = 400 if ctx.get("tier") == "thorough" else 120
+    roots = [Path("/work/proj"), Path("/srv/x/y/proj.d")]
+    bad, cases = None, 0
+    for i in range(n_cfg):
+        cfg = _gen_config(rng)
+        invalid = rng.random() < 0.2 and _plant_invalid(rng, cfg)
+        wrapped = {"file-placement": copy.deepcopy(cfg)} if i % 3 == 0 else copy.deepcopy(cfg)
+        root = roots[i % 2]
+        cases += 1
+        try:
+            linter = FilePlacementLinter(config_obj=wrapped, project_root=root)
+            built = True
+        except ValueError:
+            built = False
+        except Exception as e:  # noqa
+            bad = (cfg, "-", f"construction raised {e!r}", "ValueError or a linter")
+            break
+        if not cfg:
+            continue  # an empty config object falls back to "no rules" by the constructor's own convention
+        if built == invalid:
+            bad = (cfg, "-", "linter constructed" if built else "ValueError", "ValueError (invalid pattern)" if invalid else "a linter")
+            break
+        if not built:
+            continue
+        for rel in _PATHS:
+            want = _oracle(cfg, rel)
+            for spelled in (root / rel, Path(rel), root / rel):      # absolute, relative, and once more (cache reuse)
+                cases += 1
+                try:
+                    vs = linter.lint_path(spelled)
+                    got = len(vs) > 0
+                    ok = got == want and all(v.rule_id == "file-placement" and v.file_path == rel for v in vs)
+                except Exception as e:  # noqa
+                    got, ok = f"exception {e!r}"[:200], False
+                if not ok:
+                    bad = (cfg, str(spelled), f"reported={got}", f"reported={want}")
+                    break
+            if bad:
+                break
+        if bad:
+            break
+    note = "" if bad is None else (f"rules {bad[0]} (project root {root}), path {bad[1]}: got {bad[2]}, expected {bad[3]}")[:2000]
+    return [{"name": name, "kind": "bounded", "verdict": "passed" if bad is None else "refuted", "note": note,
+             "tool": "cpython (FilePlacementLinter(config_obj, project_root).lint_path on generated rule sets x paths)",
+             "budget": f"{n_cfg} generated rule sets x {len(_PATHS)} paths x 3 lookups", "cases": cases,
+             "ms": round((time.time() - t0) * 1000, 1), "witness_confirmed": bad is not None,
+             "model_inputs": {"rules": bad[0], "path": bad[1]} if bad else None}]
